@@ -63,6 +63,21 @@ theorem all_peers_agree {le : α → α → Bool} (ho : TotalOrder le) (empty : 
   rw [e]
   exact ⟨rfl, rfl⟩
 
+/-- The owner is a function of the membership SET and the subscriber only: whatever the configuration
+    order, repetitions and AddPeer/RemovePeer history that led to a pool, GetOwner (and the ranked list)
+    equal those of a pool built from scratch from ANY listing `members` of the same membership.  Nothing
+    else — not the number of peers, not an earlier answer — may enter the result, so a memo of owners is
+    valid exactly as long as the membership is. -/
+theorem owner_depends_only_on_membership {le : α → α → Bool} (ho : TotalOrder le) (empty : α)
+    (score : κ → α → Nat) (self : α) (peers : List α) (ops : List (PoolOp α))
+    (self' : α) (members : List α)
+    (hm : ∀ x, x ∈ (reachable le self peers ops).nodes ↔ (x = self' ∨ x ∈ members)) (k : κ) :
+    getOwner empty score (reachable le self peers ops) k = getOwner empty score (newPool le self' members) k ∧
+    rankedOf score (reachable le self peers ops) k = rankedOf score (newPool le self' members) k := by
+  have := all_peers_agree ho empty score self self' peers members ops []
+    (by intro x; rw [hm x]; exact (newPool_members le self' members x).symm) k
+  exact this
+
 /-- At most one node claims a subscriber: if two such pools both answer IsLocalOwner = true they are the same node. -/
 theorem at_most_one_local_owner {le : α → α → Bool} (ho : TotalOrder le) (empty : α) (score : κ → α → Nat)
     (self₁ self₂ : α) (peers₁ peers₂ : List α) (ops₁ ops₂ : List (PoolOp α))
